@@ -378,14 +378,16 @@ void generate(sim::Rng& g, const std::string& prop, const std::string& tier, Jso
         else { nt = g.range(2, thorough ? 6 : 5); maxsec = thorough ? 5 : 3; pw = pws_all[1 + g.below(3)]; }
         Json th = Json::array();
         int total = 0;
-        bool two = g.below(4) == 0;   // a second Resource: sections on it alone or nested inside a section of the first
+        bool churn = prop != "C12" && g.below(10) == 0;   // few threads, 8-12 short write-heavy sections each: dozens of queue entries
+        if (churn) { nt = g.range(3, 4); maxsec = 12; pw = 0.7; }   // pass through one Resource (state that only breaks after N entries)
+        bool two = !churn && g.below(4) == 0;   // a second Resource: sections on it alone or nested inside a section of the first
         program.set("two", (int)two);
         for (int t = 0; t < nt; t++) {
             Json secs = Json::array();
-            int ns = g.range(1, maxsec);
+            int ns = churn ? g.range(8, maxsec) : g.range(1, maxsec);
             for (int s = 0; s < ns; s++) {
                 Json sc = Json::object();
-                sc.set("w", (int)g.chance(pw)).set("g", (int)g.below(2)).set("y", g.range(0, 2)).set("pre", g.range(0, 2));
+                sc.set("w", (int)g.chance(pw)).set("g", (int)g.below(2)).set("y", churn ? (int)g.below(2) : g.range(0, 2)).set("pre", churn ? 0 : g.range(0, 2));
                 if (sc.get("g", 0) && g.below(6) == 0) sc.set("x", 1);   // leave the guarded section by an exception
                 if (two) {
                     int r = (int)g.below(10);
